@@ -202,7 +202,9 @@ func namesForParam(parts sortref.SplitKey, operations map[string]operations.OpRe
 	} else if parts.IsSharedOperationParam() {
 		pref := parts.PathRef()
 		for k, v := range operations {
-			if strings.HasPrefix(k, pref.String()) {
+			// operations are keyed by "<path ref>/<METHOD>": only retain the operations of this very path,
+			// not the ones of other paths which merely extend it (e.g. "/pets/{id}" for "/pets")
+			if path.Dir(k) == pref.String() {
 				startIndex = 4
 				baseNames = append(baseNames, []string{v.ID, "params", "body"})
 			}
